@@ -15,6 +15,7 @@ func clientCfg(t *rapid.T) sim.CConfig {
 		c.NoHooks = true
 	}
 	c.HookCalls = rapid.IntRange(0, 3).Draw(t, "hookcalls") == 0
+	c.HookClose = rapid.IntRange(0, 5).Draw(t, "hookclose") == 0
 	if rapid.IntRange(0, 2).Draw(t, "pins") == 0 {
 		n := rapid.IntRange(1, 2).Draw(t, "npins")
 		for i := 0; i < n; i++ {
